@@ -343,3 +343,40 @@ Fixpoint spec_run (s : sst) (ops : list op) (outs : list obs) : option sst :=
   end.
 Definition spec_ok (cap : nat) (ops : list op) (outs : list obs) : bool :=
   match spec_run (spec_init cap) ops outs with Some _ => true | None => false end.
+
+(* ---------- buffer pool: pipes built on recycled buffers (NewPipeFromBufferPool / Release) ----------
+   Release does p.b.Reset(); pool.Put(p.b); p.b = nil.  A later pipe obtained from the pool runs on that very
+   FixedBuffer, in the state Reset left it (contents are NOT cleared).  The pool is a stack of buffers; an empty
+   pool makes a fresh buffer (sync.Pool.New). *)
+Definition pipe_from (b : fbuf) : pipe :=
+  {| p_b := Some b; p_err := 0; p_brk := 0; p_fn := false; p_calls := 0; p_done := None |}.
+
+(* run one pipe's history, collecting what its Release hands back to the pool *)
+Fixpoint run_from_pool (p : pipe) (pool : list fbuf) (ops : list op) : pipe * list fbuf * list obs :=
+  match ops with
+  | [] => (p, pool, [])
+  | o :: rest =>
+      let pool1 := match o, p_b p with
+                   | ORelease, Some b => fb_reset b :: pool
+                   | _, _ => pool
+                   end in
+      let '(p1, b) := step p o in
+      let '(p2, pool2, bs) := run_from_pool p1 pool1 rest in
+      (p2, pool2, b :: bs)
+  end.
+
+Definition pool_get (cap : nat) (pool : list fbuf) : fbuf * list fbuf :=
+  match pool with b :: r => (b, r) | [] => (fb_new cap, []) end.
+
+(* generations: each list of ops is the history of one pipe; the next pipe is taken from the pool *)
+Fixpoint run_gens (cap : nat) (pool : list fbuf) (gens : list (list op)) : list (list obs) :=
+  match gens with
+  | [] => []
+  | g :: rest =>
+      let '(b, pool1) := pool_get cap pool in
+      let '(_, pool2, outs) := run_from_pool (pipe_from b) pool1 g in
+      outs :: run_gens cap pool2 rest
+  end.
+
+(* a Reset that forgets to rewind the read index (what must not happen) *)
+Definition fb_reset_w_only (b : fbuf) : fbuf := {| fb_buf := fb_buf b; fb_r := fb_r b; fb_w := 0 |}.
